@@ -189,6 +189,8 @@ pub fn liq_weights() -> Weights {
     w.oracle = 8;
     w.funding = 8;
     w.block = 12;
+    // the owner changes ratios in between (incl. values the engine must refuse)
+    w.ecfg = 4;
     w
 }
 
